@@ -183,6 +183,31 @@ example : engRun 1 (lagMachine (ν := Int) 1 true) Eng.empty [fr 0 true 1, fr 1 
     = [some (.int (-1)), some (.int (-1)), some (.int (-1))] := by decide
 example : withinCap 1 [fr 0 true 1, fr 1 true 10, fr 0 true 2] = false := by decide
 
+-- eviction: a full engine (cap 2, keys 1 then 0 at the back), new key 2 arrives: key 0 restarts
+def eFull : Eng Nat (List (Val Int)) (Val Int) :=
+  { lru := [(1, [.int 5]), (0, [.int 1])], last := [(0, .int 9), (1, .int 4)] }
+example : (keysOf eFull).Nodup ∧ eFull.lru.length = 2 ∧ 2 ∉ keysOf eFull ∧ eFull.lru.getLast? = some (0, [.int 1]) := by decide
+example : absSt [] (evalLive 2 (lagMachine (ν := Int) 1 true) eFull 2 (li 7)).1 0 = [] ∧
+    absLast (evalLive 2 (lagMachine (ν := Int) 1 true) eFull 2 (li 7)).1 0 = none ∧
+    absLast (evalLive 2 (lagMachine (ν := Int) 1 true) eFull 2 (li 7)).1 1 = some (.int 4) := by decide
+-- WHEN fails: the cached value of the partition, nothing else changes
+example : (evalField 2 (lagMachine (ν := Int) 1 true) eFull 0 false (li 7)).2 = some (.int 9) := by decide
+-- WHERE order over a counting machine: rows failing a plain WHERE do not count; with analytic WHERE all count
+def cnt : Machine Nat Int Nat := { init := 0, step := fun s _ => (s + 1, s + 1) }
+example : runRows false (fun r => decide (r > 0)) (fun _ _ => true) cnt 0 [5, -1, 7] = [some 1, none, some 2] := by decide
+example : runRows true (fun _ => true) (fun r o => decide (r > 0) && decide (o > 1)) cnt 0 [5, -1, 7] = [none, none, some 3] := by decide
+-- one query field end to end: `v - lag(v) OVER (PARTITION BY k1 WHEN g > 0)`, keys "a|" and "a"
+def fld : Field Int :=
+  { calls := [.lag 0 none none none], wrap := .colMinus 0, part := some [0], when := some { col := 2, cmp := .gt, c := 0 } }
+def qrow (k : List Char) (v g : Int) : Row Int :=
+  { keys := [.str k, .null], cells := [.present (.int v), .missing, .present (.int g)] }
+def qrows : List (Row Int) := [qrow ['a','|'] 10 1, qrow ['a'] 100 1, qrow ['a','|'] 13 1, qrow ['a'] 7 0, qrow ['a','|'] 20 1]
+example : withinCap 2 (fieldRows fld qrows) = true := by decide
+example : fieldSpec (fieldFn fld) (fieldRows fld qrows) =
+    [some (.one .null), some (.one .null), some (.one (.int 3)), some (.one .null), some (.one (.int 7))] := by decide
+example : engRun 2 (fieldMachine fld) (Eng.empty : FEng Int) (modelRows fld qrows) =
+    [some (.one .null), some (.one .null), some (.one (.int 3)), some (.one .null), some (.one (.int 7))] := by decide
+
 end C14
 
 /-! tie to the source constants (regenerated on every run from /repo by factsgen): the partition
